@@ -4,6 +4,8 @@ import (
 	"fmt"
 	"go/ast"
 	"go/token"
+	"os"
+	"path/filepath"
 	"strings"
 )
 
@@ -223,6 +225,9 @@ func (e *emitter) c10Semantic(s *source) {
 	const g = "core/errorx/atomicerror.go"
 	errs := map[string]string{"ErrCancelWithNil": "(some errCancelWithNil)", "ErrReduceNoOutput": "(some errReduceNoOutput)",
 		"context.DeadlineExceeded": "(some errDeadline)"}
+	// the error path is rendered twice from the same syntax: over error CODES (`Option Nat`, suffix "") and over error
+	// VALUES with the private wrapper (`Option GErr`, suffix "W": round 5c)
+	sfx, ety := "", "Option Nat"
 	env := func(m map[string]string) *c10Env {
 		v := &c10Env{s: s, idents: map[string]string{}}
 		for k, x := range errs {
@@ -275,7 +280,21 @@ func (e *emitter) c10Semantic(s *source) {
 		}
 		return out
 	})
-	e.c10Def("atomicErrorSet", "`AtomicError.Set(err)` as new content of the cell (`cur` = content before)", "(cur err : Option Nat)", "Option Nat", func() string {
+	mr := func() *ast.FuncDecl { return c10Func(s, f, "mapReduceWithPanicChan") }
+	// the caller's select
+	var sel *ast.SelectStmt
+	findSel := func() {
+		for _, st := range mr().Body.List {
+			if x, ok := st.(*ast.SelectStmt); ok {
+				sel = x
+			}
+		}
+		if sel == nil {
+			c10Failf("the caller's select not found")
+		}
+	}
+	errPath := func() {
+	e.c10Def("atomicErrorSet"+sfx, "`AtomicError.Set(err)` as new content of the cell (`cur` = content before)", "(cur err : "+ety+")", ety, func() string {
 		fd := c10Func(s, g, "AtomicError.Set")
 		if len(fd.Body.List) != 1 {
 			c10Failf("one statement expected")
@@ -287,7 +306,7 @@ func (e *emitter) c10Semantic(s *source) {
 		v := env(map[string]string{"err": "err"})
 		return "if " + v.expr(i.Cond) + " then " + v.expr(c10OnlyCallArg(s, i.Body, "ae.err.Store", 0)) + " else cur"
 	})
-	e.c10Def("atomicErrorLoad", "`AtomicError.Load()` (`cur` = content of the cell)", "(cur : Option Nat)", "Option Nat", func() string {
+	e.c10Def("atomicErrorLoad"+sfx, "`AtomicError.Load()` (`cur` = content of the cell)", "(cur : "+ety+")", ety, func() string {
 		fd := c10Func(s, g, "AtomicError.Load")
 		if len(fd.Body.List) != 2 {
 			c10Failf("two statements expected")
@@ -311,8 +330,7 @@ func (e *emitter) c10Semantic(s *source) {
 		}
 		return "let v := cur; if " + v.expr(i.Cond) + " then " + v.expr(ret(i.Body.List[0])) + " else " + v.expr(ret(fd.Body.List[1]))
 	})
-	mr := func() *ast.FuncDecl { return c10Func(s, f, "mapReduceWithPanicChan") }
-	e.c10Def("cancelRecords", "what `cancel(err)` stores into retErr (the function handed to `once`)", "(err : Option Nat)", "Option Nat", func() string {
+	e.c10Def("cancelRecords"+sfx, "what `cancel(err)` stores into retErr (the function handed to `once`)", "(err : "+ety+")", ety, func() string {
 		var lit *ast.FuncLit
 		ast.Inspect(mr().Body, func(n ast.Node) bool {
 			if c, ok := n.(*ast.CallExpr); ok && s.src(c.Fun) == "once" && len(c.Args) == 1 {
@@ -325,22 +343,10 @@ func (e *emitter) c10Semantic(s *source) {
 		}
 		i := c10FirstIf(lit.Body.List[:1])
 		v := env(map[string]string{"err": "err"})
-		return "if " + v.expr(i.Cond) + " then atomicErrorSet none " + v.expr(c10OnlyCallArg(s, i.Body, "retErr.Set", 0)) +
-			" else atomicErrorSet none " + v.expr(c10OnlyCallArg(s, c10Else(i), "retErr.Set", 0))
+		return "if " + v.expr(i.Cond) + " then atomicErrorSet"+sfx+" none " + v.expr(c10OnlyCallArg(s, i.Body, "retErr.Set", 0)) +
+			" else atomicErrorSet"+sfx+" none " + v.expr(c10OnlyCallArg(s, c10Else(i), "retErr.Set", 0))
 	})
-	// the caller's select
-	var sel *ast.SelectStmt
-	findSel := func() {
-		for _, st := range mr().Body.List {
-			if x, ok := st.(*ast.SelectStmt); ok {
-				sel = x
-			}
-		}
-		if sel == nil {
-			c10Failf("the caller's select not found")
-		}
-	}
-	e.c10Def("callerOutput", "the caller's `case v, ok := <-output` branch as (val, err)", "(retErr : Option Nat) (ok : Bool) (v : Nat)", "Nat × Option Nat", func() string {
+	e.c10Def("callerOutput"+sfx, "the caller's `case v, ok := <-output` branch as (val, err)", "(retErr : "+ety+") (ok : Bool) (v : Nat)", "Nat × "+ety, func() string {
 		findSel()
 		for _, cl := range sel.Body.List {
 			cc := cl.(*ast.CommClause)
@@ -371,12 +377,14 @@ func (e *emitter) c10Semantic(s *source) {
 			if !okk || i2.Init != nil {
 				c10Failf("else-if expected")
 			}
-			return "let e := atomicErrorLoad retErr; if " + vv.expr(i.Cond) + " then " + branch(i.Body) + " else if " + vv.expr(i2.Cond) +
+			return "let e := atomicErrorLoad"+sfx+" retErr; if " + vv.expr(i.Cond) + " then " + branch(i.Body) + " else if " + vv.expr(i2.Cond) +
 				" then " + branch(i2.Body) + " else " + branch(c10Else(i2))
 		}
 		c10Failf("output case not found")
 		return ""
 	})
+	}
+	errPath()
 	e.c10Def("callerCtxCase", "the caller's context case: (argument of cancel, returned err)", "", "Option Nat × Option Nat", func() string {
 		findSel()
 		for _, cl := range sel.Body.List {
@@ -473,6 +481,57 @@ func (e *emitter) c10Semantic(s *source) {
 		v := env(map[string]string{"err": "err"})
 		return "if " + v.expr(i.Cond) + " then some " + v.expr(c10OnlyCallArg(s, i.Body, "cancel", 0)) + " else none"
 	})
+	// round 5c: the same path over error VALUES: `cancelError` is the wrapper it is
+	e.printf("/-- a Go error value: a code, or the private wrapper `cancelError{inner}` -/\ninductive GErr\n  | code (k : Nat)\n  | marked (inner : GErr)\n  deriving DecidableEq, Repr\n\n")
+	e.printf("/-- `errors.Is` on values: `cancelError` embeds the error INTERFACE (no Unwrap method is promoted), so a wrapped value never matches a sentinel -/\ndef errorsIsW (err : Option GErr) (target : Option GErr) : Bool :=\n  match err, target with\n  | some (.code k), some (.code t) => errorsIs (some k) (some t)\n  | _, _ => false\n\n")
+	sfx, ety = "W", "Option GErr"
+	errs["ErrCancelWithNil"], errs["ErrReduceNoOutput"], errs["context.DeadlineExceeded"] =
+		"(some (GErr.code errCancelWithNil))", "(some (GErr.code errReduceNoOutput))", "(some (GErr.code errDeadline))"
+	errPath()
+	e.c10Def("markCancelW", "`markCancel(cancel)(err)` over values: what is handed to the real cancel", "(err : Option GErr)", "Option GErr", func() string {
+		lits := c10Lits(c10Func(s, f, "markCancel").Body)
+		if len(lits) != 1 || len(lits[0].Body.List) != 2 {
+			c10Failf("return func(err error) { if …; cancel(err) } expected")
+		}
+		i := c10FirstIf(lits[0].Body.List[:1])
+		l, r := c10OnlyAssign(s, i.Body)
+		cl, okc := r.(*ast.CompositeLit)
+		if l != "err" || i.Else != nil || !okc || s.src(cl.Type) != "cancelError" || len(cl.Elts) != 1 || s.src(cl.Elts[0]) != "err" {
+			c10Failf("`if err != nil { err = cancelError{err} }` expected")
+		}
+		if s.src(c10OnlyCallArg(s, &ast.BlockStmt{List: lits[0].Body.List[1:]}, "cancel", 0)) != "err" {
+			c10Failf("cancel(err) expected")
+		}
+		return "if " + env(map[string]string{"err": "err"}).expr(i.Cond) + " then err.map GErr.marked else err"
+	})
+	e.c10Def("voidReturnW", "`MapReduceVoid`'s return over values: `err.(cancelError)` succeeds exactly for a wrapped value, whose inner error is returned", "(err : Option GErr)", "Option GErr", func() string {
+		fd := c10Func(s, f, "MapReduceVoid")
+		if len(fd.Body.List) != 4 {
+			c10Failf("four statements expected")
+		}
+		retOf := func(st ast.Stmt) ast.Expr {
+			r, ok := st.(*ast.ReturnStmt)
+			if !ok || len(r.Results) != 1 {
+				c10Failf("return of one value expected")
+			}
+			return r.Results[0]
+		}
+		i0, ok0 := fd.Body.List[1].(*ast.IfStmt)
+		if !ok0 || i0.Init == nil || s.src(i0.Init) != "ce, ok := err.(cancelError)" || s.src(i0.Cond) != "ok" || i0.Else != nil ||
+			len(i0.Body.List) != 1 || s.src(retOf(i0.Body.List[0])) != "ce.error" {
+			c10Failf("`if ce, ok := err.(cancelError); ok { return ce.error }` expected")
+		}
+		i := c10FirstIf(fd.Body.List[2:3])
+		v := env(map[string]string{"err": "err"})
+		if len(i.Body.List) != 1 || i.Else != nil || i.Init != nil {
+			c10Failf("if … { return x }; return y expected")
+		}
+		return "match err with\n  | some (.marked inner) => some inner\n  | _ => if " + strings.ReplaceAll(v.expr(i.Cond), "errorsIs ", "errorsIsW ") + " then " +
+			v.expr(retOf(i.Body.List[0])) + " else " + v.expr(retOf(fd.Body.List[3]))
+	})
+	errs["ErrCancelWithNil"], errs["ErrReduceNoOutput"], errs["context.DeadlineExceeded"] = "(some errCancelWithNil)", "(some errReduceNoOutput)", "(some errDeadline)"
+	sfx, ety = "", "Option Nat"
+
 	// the defaults and the option plumbing (skeletons)
 	var fields []string
 	ast.Inspect(c10Func0(s, f, "newOptions"), func(n ast.Node) bool {
@@ -734,9 +793,56 @@ func c10GoLits(n ast.Node) [][]ast.Stmt {
 	return out
 }
 
+// c10GoDirective: the `go` line of go.mod as (major, minor) — since go 1.21 `panic(nil)` is recovered as a non-nil
+// *runtime.PanicNilError, so `if r := recover(); r != nil` does not miss it.
+func c10GoDirective() (int, int) {
+	b, err := os.ReadFile(filepath.Join(*repo, "go.mod"))
+	if err != nil {
+		c10Failf("go.mod: %v", err)
+	}
+	for _, ln := range strings.Split(string(b), "\n") {
+		f := strings.Fields(ln)
+		if len(f) == 2 && f[0] == "go" {
+			var a, c int
+			if n, _ := fmt.Sscanf(f[1], "%d.%d", &a, &c); n == 2 {
+				return a, c
+			}
+		}
+	}
+	c10Failf("no go directive in go.mod")
+	return 0, 0
+}
+
 func (e *emitter) c10EffectLists(s *source) {
 	const f = "core/mr/mapreduce.go"
 	e.printf("%s", c10EffDecl)
+	e.c10Def("goDirective", "the `go` directive of go.mod (major, minor)", "", "Nat × Nat", func() string {
+		a, c := c10GoDirective()
+		return fmt.Sprintf("(%d, %d)", a, c)
+	})
+	// the statements of the three goroutine bodies OUTSIDE the deferred function: the call of the user function only
+	nonDeferred := func(body []ast.Stmt) []ast.Stmt {
+		var rest []ast.Stmt
+		for _, st := range body {
+			if _, ok := st.(*ast.DeferStmt); !ok {
+				rest = append(rest, st)
+			}
+		}
+		return rest
+	}
+	for _, g := range []struct{ name, fn string }{{"reducerGoBody", "mapReduceWithPanicChan"}, {"workerGoBody", "executeMappers"}, {"generatorGoBody", "buildSource"}} {
+		g := g
+		e.c10EffDef(g.name, "the goroutine body of `"+g.fn+"` outside its deferred function, and the deferred function comes FIRST (so it also runs on runtime.Goexit)", func() []ast.Stmt {
+			gl := c10GoLits(c10Func(s, f, g.fn).Body)
+			if len(gl) != 1 || len(gl[0]) == 0 {
+				c10Failf("one go func(){…}() expected")
+			}
+			if _, ok := gl[0][0].(*ast.DeferStmt); !ok {
+				c10Failf("the deferred function must be the first statement of the goroutine")
+			}
+			return nonDeferred(gl[0])
+		}, s)
+	}
 	mr := func() *ast.FuncDecl { return c10Func(s, f, "mapReduceWithPanicChan") }
 	litArgOf := func(fd *ast.FuncDecl, callee string) *ast.FuncLit {
 		var lit *ast.FuncLit
